@@ -197,6 +197,49 @@ example :
       = lit "FROM a AS b   WHERE b.c() == \"q\" SELECT b" := by
   decide
 
+/-! ### the joined lines as a function of the characters -/
+
+/-- line feeds become blanks, everything else stays -/
+def nl2sp (s : S) : S := s.map (fun c => if c == '\n' then ' ' else c)
+
+/-- what a reader joins (`line + " "` over the lines of a text) is the text with every line feed turned into a
+    blank, and one blank more at the end: no character is dropped, doubled or moved, whatever the number and the
+    length of the lines -/
+theorem C18_joined_lines (text : S) : queryText (splitChar '\n' text) = nl2sp text ++ [' '] := by
+  induction text with
+  | nil => rfl
+  | cons c cs ih =>
+    unfold splitChar
+    by_cases h : (c == '\n') = true
+    · simp only [h, if_true]
+      simp only [queryText, List.map_cons, List.flatten_cons, List.nil_append] at ih ⊢
+      rw [ih]
+      have hc : c = '\n' := by simpa using h
+      subst hc
+      simp [nl2sp]
+    · have h' : (c == '\n') = false := by simpa using h
+      simp only [h', Bool.false_eq_true, if_false]
+      cases hs : splitChar '\n' cs with
+      | nil => exact absurd hs (splitChar_ne_nil '\n' cs)
+      | cons w ws =>
+        rw [hs] at ih
+        simp only [queryText, List.map_cons, List.flatten_cons] at ih ⊢
+        simp only [List.cons_append, nl2sp, List.map_cons, h', Bool.false_eq_true, if_false]
+        simpa [nl2sp] using ih
+
+/-- **C18 (ci reader, a file that is all query)**: the text handed to the query parser is the file's text with its
+    line feeds turned into blanks, trimmed. (What that does to the *tokens* is C14's question: white space between
+    tokens may change freely — `C14_lex_layout` — and a token that spans lines is the recorded finding.) -/
+theorem C18_ci_query_chars (text : S) (l0 : S) (rest : List S) (hs : splitChar '\n' text = l0 :: rest)
+    (h0 : startsQuery l0 = true) (hc : ∀ l ∈ l0 :: rest, startsComment l = false) :
+    ciParseLines (splitChar '\n' text) = trimSpace (nl2sp text ++ [' ']) := by
+  have h := C18_ci_query [] l0 rest (by simp) h0 hc
+  rw [List.nil_append] at h
+  rw [hs, h, ← hs, C18_joined_lines]
+
+/-- Non-vacuity: a wrapped query with a CR LF line end and an empty line. -/
+example : queryText (splitChar '\n' "FROM a AS b\r\n\nSELECT b".toList) = "FROM a AS b\r  SELECT b ".toList := by decide
+
 /-- Regenerated: the string operations and the decisions of the three functions the reader models mirror
     (`cmd.ParseQuery`, `cmd.ParseCommentLine`, `cmd.ExtractQueryFromFile`), in source order. The hand-written models
     in `Cpf.Rules.RuleFile` are read off exactly these: split on "\n" (ci) / bufio.Scanner (file), a line starts the
